@@ -375,3 +375,45 @@ Proof. intros [|r0 rest]; reflexivity. Qed.
 Theorem short_first_read_cuts_the_file :
   exists reads, file_part_short_first_is_all reads <> concat reads.
 Proof. exists [bs "ab"; bs "cd"]. vm_compute. discriminate. Qed.
+
+(* ---------- round 8 ---------- *)
+(* the cookie-octet test, for all 256 byte values (DEL and everything above it are refused) *)
+Theorem cookie_value_byte_table : forall c,
+  valid_cookie_value_byte c =
+  negb ((bN c <? 32)%N || (127 <=? bN c)%N || beqb c """"%byte || beqb c ";"%byte || beqb c "\"%byte).
+Proof. intros c. destruct c; reflexivity. Qed.
+
+Lemma filter_all {A} (f : A -> bool) l : forallb f l = true -> filter f l = l.
+Proof.
+  induction l as [|x l IH]; [reflexivity|]. cbn [forallb filter]. intros H. apply andb_true_iff in H as [H1 H2].
+  rewrite H1, IH by exact H2. reflexivity.
+Qed.
+
+(* a cookie that passes checkRequestCookie is written by AddCookie with every byte of its name and
+   value (the value between double quotes when it holds a blank or a comma) - nothing is dropped *)
+Theorem valid_cookie_sent_unaltered : forall c, valid_cookie c = true ->
+  cookie_pair c = fst c ++ "="%byte :: snd c \/
+  cookie_pair c = fst c ++ "="%byte :: """"%byte :: snd c ++ [""""%byte].
+Proof.
+  intros [n v] H. unfold valid_cookie, valid_method in H. cbn [fst snd] in *.
+  apply andb_true_iff in H as [Hn Hv]. apply andb_true_iff in Hn as [_ Htok].
+  assert (En : sanitize_cookie_name n = n).
+  { unfold sanitize_cookie_name. rewrite <- (map_id n) at 2. apply map_ext_in. intros b Hb.
+    rewrite forallb_forall in Htok. specialize (Htok b Hb). unfold cookie_name_byte.
+    destruct (beqb b x0a || beqb b x0d) eqn:E; [|reflexivity].
+    exfalso. apply orb_true_iff in E as [E|E]; apply beqb_eq in E; subst; discriminate. }
+  unfold cookie_pair, sanitize_cookie_value. cbn [fst snd]. rewrite En, (filter_all _ v Hv).
+  destruct (is_nil v) eqn:Ev; [left; reflexivity|].
+  destruct (mem_byte " "%byte v || mem_byte ","%byte v); [right|left]; reflexivity.
+Qed.
+
+(* a URL kept from the first attempt ignores what a retry hook changed *)
+Theorem cached_attempt_url_ignores_changed_ingredients :
+  exists cache base raw rp rp' cp cq rq,
+    cache = Some (raw, attempt_url base raw rp cp cq rq) /\
+    attempt_url_cached cache base raw rp' cp cq rq <> attempt_url base raw rp' cp cq rq.
+Proof.
+  exists (Some (bs "/u/{id}", attempt_url (bs "http://h") (bs "/u/{id}") [(bs "id", bs "1")] [] [] [])),
+         (bs "http://h"), (bs "/u/{id}"), [(bs "id", bs "1")], [(bs "id", bs "2")], [], [], [].
+  split; [reflexivity|]. vm_compute. discriminate.
+Qed.
